@@ -39,13 +39,45 @@ type c04rule struct {
 
 var c04mt = map[string]hatypes.MatchType{"E": hatypes.MatchExact, "P": hatypes.MatchPrefix, "B": hatypes.MatchBegin, "R": hatypes.MatchRegex}
 
-func c04order(s string) []hatypes.MatchType {
+// the controller parses path-type-order ONCE per global configuration (global.MatchOrder) and hands the SAME slice to
+// every hatypes.CreateMaps call (three builders per update, every later update): the harness does the same — one
+// slice per order for the whole run — so that a builder that writes to its argument is seen by the later cases
+// (seed C04f); c04orderIntact reports a slice whose content no longer spells the order.
+var c04orderSlices = map[string][]hatypes.MatchType{}
+
+func c04orderFresh(s string) []hatypes.MatchType {
 	var o []hatypes.MatchType
 	for _, ch := range s {
 		o = append(o, c04mt[string(ch)])
 	}
 	// regex always present in the real configuration; its position is irrelevant without regex rules
 	return append(o, hatypes.MatchRegex)
+}
+
+func c04order(s string) []hatypes.MatchType {
+	if o, ok := c04orderSlices[s]; ok {
+		return o
+	}
+	o := c04orderFresh(s)
+	c04orderSlices[s] = o
+	return o
+}
+
+func c04orderIntact(s string) bool {
+	o, ok := c04orderSlices[s]
+	if !ok {
+		return true
+	}
+	f := c04orderFresh(s)
+	if len(o) != len(f) {
+		return false
+	}
+	for i := range o {
+		if o[i] != f[i] {
+			return false
+		}
+	}
+	return true
 }
 
 func c04case(c *ctx, order string, rules []c04rule) {
@@ -76,6 +108,10 @@ func c04case(c *ctx, order string, rules []c04rule) {
 				l = "L"
 			}
 			files = append(files, mf.Method()+":"+l+":"+strings.Join(es, ","))
+		}
+		if !c04orderIntact(order) {
+			// the shared order slice was written to: every later build of the controller sees another order
+			c.stat("order_slice_modified", 1)
 		}
 		if len(files) == 0 {
 			return "-"
